@@ -717,6 +717,34 @@ theorem C15_direct_rank (strat : Strategy) (st : State) :
     Ranked strat (rawRank strat st).kinds :=
   ⟨rank_sameCore strat st.kinds, rawRank_ranked strat st⟩
 
+/-- forced efficiencies over the whole range of a C `int` (the internal entry point and private writes can store negative
+    values other than -1; the public call cannot): known and pairwise distinct — the default and `forced_efficiency`
+    strategies sort by the `uint64_t` cast `ukey` (non-negative values in increasing order, then the negative ones) -/
+theorem C15_rank_forced_int_range (strat : Strategy) (hs : strat = .dflt ∨ strat = .forced) (ks : List Kind)
+    (h2 : 2 ≤ ks.length) (hb : ∀ k ∈ ks, -9223372036854775808 ≤ k.forced ∧ k.forced < 9223372036854775808)
+    (hk : ∀ k ∈ ks, k.forced ≠ -1) (hd : (ks.map (·.forced)).Pairwise (· ≠ ·)) :
+    rank strat ks = renumber 0 (sortBy forcedKey ks) ∧
+    (rank strat ks).Pairwise (fun a b => ukey a.forced < ukey b.forced) ∧
+    (∀ (i : Nat) (hi : i < (rank strat ks).length), (rank strat ks)[i].eff = (i : Int)) :=
+  rank_forced_int hs ks h2 hb hk hd
+
+/-- failure of the info-based strategies, EVERY array of two or more kinds: when the requirement of the strategy's row in
+    `C15_strategy_table` is not met the array is untouched and every efficiency is -1 (`no_forced_efficiency` has the
+    requirement of `coretype+frequency`) -/
+theorem C15_info_strategy_fails (s : Strategy) (hs : s ≠ .dflt ∧ s ≠ .forced) (ks : List Kind) (h2 : 2 ≤ ks.length)
+    (hn : ¬ Need (if s = .noForced then .coretypeFreq else s) ks) : rank s ks = clearEff ks :=
+  rank_info_fails s hs ks h2 hn
+
+/-- non-numeric info values: a kind whose LAST FrequencyMaxMHz (FrequencyBaseMHz) value, after white space, is empty or
+    starts with neither a sign nor a digit — `atoi` answers 0 — or which has no such pair, makes `frequency_max`
+    (`frequency_base`) fail for the whole array -/
+theorem C15_nonnumeric_frequency_fails (ks : List Kind) (h2 : 2 ≤ ks.length) (k : Kind) (hk : k ∈ ks) :
+    ((lastVal "FrequencyMaxMHz" k.infos = none ∨ ∃ v, lastVal "FrequencyMaxMHz" k.infos = some v ∧ NonNumeric v) →
+      rank .freqMax ks = clearEff ks) ∧
+    ((lastVal "FrequencyBaseMHz" k.infos = none ∨ ∃ v, lastVal "FrequencyBaseMHz" k.infos = some v ∧ NonNumeric v) →
+      rank .freqBase ks = clearEff ks) :=
+  ⟨rank_freqMax_fails ks h2 k hk, rank_freqBase_fails ks h2 k hk⟩
+
 /-! non-vacuity of the A7 theorems -/
 -- `C15_rank_consistent_with_forced`: an array that is NOT reachable (overlapping cpusets, stale efficiencies) meets the
 -- hypotheses and is reordered
@@ -773,5 +801,25 @@ example :
     let st2 := (rawSet (rawSwap st 0 1).1 0 (-7) 99).1
     st2.kinds.map (fun k => (k.cpuset, k.eff, k.forced)) = [(0xf0, 99, -7), (0x0f, 0, 1)] ∧
     (rawRank .forced st2).kinds.map (fun k => (k.cpuset, k.eff, k.forced)) = [(0x0f, 0, 1), (0xf0, 1, -7)] := by decide
+-- `C15_rank_forced_int_range`: 5, -7, INT_MIN are known and distinct; the negative ones come last, in increasing order
+example :
+    let ks : List Kind := [{ cpuset := 1, eff := 0, forced := -7, infos := [] }, { cpuset := 2, eff := 0, forced := 5, infos := [] },
+                           { cpuset := 4, eff := 0, forced := -2147483648, infos := [] }]
+    2 ≤ ks.length ∧ (∀ k ∈ ks, -9223372036854775808 ≤ k.forced ∧ k.forced < 9223372036854775808) ∧
+    (∀ k ∈ ks, k.forced ≠ -1) ∧ (ks.map (·.forced)).Pairwise (· ≠ ·) ∧
+    (rank .forced ks).map (fun k => (k.eff, k.forced)) = [(0, 5), (1, -2147483648), (2, -7)] := by decide
+-- `C15_nonnumeric_frequency_fails`: "abc" is NonNumeric and defeats frequency_max; "12abc" is not (atoi = 12)
+example :
+    let k : Kind := { cpuset := 1, eff := -1, forced := -1, infos := [("FrequencyMaxMHz", "3000"), ("FrequencyMaxMHz", "abc")] }
+    lastVal "FrequencyMaxMHz" k.infos = some "abc" ∧ "abc".toList.dropWhile isSpace = ['a', 'b', 'c'] ∧
+    (summarize k).maxFreq = 0 ∧ atoiU32 "12abc" = 12 ∧ atoiU32 "-5" = 4294967291 ∧ atoiU32 "4294967297" = 1 := by decide
+example : NonNumeric "abc" := Or.inr ⟨'a', ['b', 'c'], by decide, by decide, by decide, by decide⟩
+-- `C15_info_strategy_fails`: `coretype` on an array with an unrecognised core type
+example :
+    let ks : List Kind := [{ cpuset := 1, eff := 0, forced := 1, infos := [("CoreType", "IntelAtom")] },
+                           { cpuset := 2, eff := 1, forced := 2, infos := [("CoreType", "Other")] }]
+    ¬ Need .coretype ks ∧ (rank .coretype ks).map (·.eff) = [-1, -1] := by
+  refine ⟨fun h => ?_, by decide⟩
+  exact h _ (List.mem_cons_of_mem _ List.mem_cons_self) (by decide)
 
 end Hw.Props.C15
